@@ -256,6 +256,30 @@ def run(ctx, idx):
                 ctx.ob("C17.i", "%s.execute::fixed-format@%s" % (d_.key, q_.split(".")[-1]), d_.module.rel, n_.lineno, not varying,
                        "constant format options" if not varying else "`%s` is given a format (`%s`) decided at run time: the same file may be split differently from what the writer produced" % (K.src(n_)[:50], K.src(varying[0])[:40]))
     ctx.floor("C17.i", "csv reader / writer constructions", n_csv, 2)
+    # reader and writer speak the same dialect: whatever format options one is given the other is given too (quoting above all:
+    # the writer quotes header names and cells that hold a comma or a quote, and only a reader that processes quotes undoes that)
+    opts_ = {}
+    for d_, _r in (rd, wr):
+        fi_ = d_.execute
+        for n_ in ast.walk(fi_.node):
+            if isinstance(n_, ast.Call) and (idx.qualname(fi_.module, n_.func, fi_) or K.src(n_.func)) in ("csv.reader", "csv.writer", "csv.DictReader", "csv.DictWriter"):
+                o_ = {k.arg: K.src(k.value) for k in n_.keywords if k.arg in ("dialect", "delimiter", "quotechar", "escapechar", "quoting", "skipinitialspace", "doublequote", "lineterminator", "strict")}
+                if len(n_.args) > 1:
+                    o_["dialect"] = K.src(n_.args[1])
+                o_.pop("lineterminator", None) if o_.get("lineterminator") in ("'\\r\\n'", "'\\n'") else None
+                opts_.setdefault("reader" if d_ is rd[0] else "writer", []).append((n_, o_))
+    if opts_.get("reader") and opts_.get("writer"):
+        w_opts = opts_["writer"][0][1]
+        for n_, o_ in opts_["reader"]:
+            diff_ = sorted(k_ for k_ in set(o_) | set(w_opts) if o_.get(k_) != w_opts.get(k_) and k_ != "lineterminator")
+            if any(not isinstance(v_, str) for v_ in o_.values()):
+                continue
+            con_ = "%s.execute::reader-and-writer-agree" % rd[0].key
+            if diff_ and not undecided_:
+                ctx.violate("C17.i", con_, rd[0].module.rel, n_.lineno, "the reader is given %s while the writer is given %s: what the writer quotes (a header name or cell holding a comma or a double quote) is not read back as one field - the column is reported missing, or every later field of the row shifts" % (
+                    ", ".join("%s=%s" % (k_, o_.get(k_, "<default>")) for k_ in diff_), ", ".join("%s=%s" % (k_, w_opts.get(k_, "<default>")) for k_ in diff_)))
+            elif not diff_:
+                ctx.hold("C17.i", con_, rd[0].module.rel, n_.lineno, "reader and writer are given the same format options (%s)" % (", ".join(sorted(o_)) or "none: the csv defaults"))
     deferred_ = undecided_[0] if undecided_ else None
     d, r = rd
     n = iorules.param_domains(ctx, idx, "C17.a", d)
@@ -476,6 +500,16 @@ def run(ctx, idx):
         elif isinstance(n, ast.Assign) and len(n.targets) == 1 and isinstance(n.targets[0], ast.Subscript) and isinstance(n.targets[0].slice, ast.Tuple) and len(n.targets[0].slice.elts) == 2 \
                 and isinstance(n.targets[0].slice.elts[0], ast.Slice) and n.targets[0].slice.elts[0].lower is None and n.targets[0].slice.elts[0].upper is None and isinstance(n.targets[0].slice.elts[1], ast.Name):
             how, line = "table filled column by column (out[:, j] = column)", n.lineno
+    # every cell gets its row: nothing between the stack and the file takes rows (or cells) out
+    REMOVERS = {"compress_rows", "compress_cols", "compress_rowcols", "compressed", "mask_rows", "delete", "unique", "dropna", "compress", "extract", "trim_zeros"}
+    for n in ast.walk(fi.node):
+        if isinstance(n, ast.Call):
+            nm_ = (idx.qualname(fi.module, n.func, fi) or K.src(n.func)).split(".")[-1]
+            if nm_ in REMOVERS:
+                ctx.violate("C17.d", "%s.execute::every-cell-has-its-row" % d.key, d.module.rel, n.lineno, "`%s` takes rows out of the table before it is written: a row in which one field is missing disappears for every field, the rows after it move up, and a column read back has fewer values than the result that was written" % K.src(n)[:60])
+                break
+    else:
+        ctx.hold("C17.d", "%s.execute::every-cell-has-its-row" % d.key, d.module.rel, line, "nothing removes rows between the stacked results and writerows", nontrivial=False)
     if how is None:
         stacked_rows = any(isinstance(n, ast.Call) and isinstance(n.func, ast.Attribute) and n.func.attr == "writerows" and n.args and ("arrays" in K.names_in(n.args[0]) or (idx.qualname(fi.module, getattr(n.args[0], "func", ast.Name(id="?", ctx=ast.Load())), fi) or "").endswith(".array")) for n in own_nodes(fi.node))
         if stacked_rows:
